@@ -18,8 +18,10 @@ func main() {
 	hvSeed, hvCount, wo, wi, _, hvDone := hv.Args()
 	defer hvDone()
 	rng := rand.New(rand.NewSource(hvSeed))
-	nWF := 0
-	defer func() { hv.Stats(map[string]int{"well_formed_builds_premises_checked": nWF}) }()
+	nWF, nCopy := 0, 0
+	defer func() {
+		hv.Stats(map[string]int{"well_formed_builds_premises_checked": nWF, "copies_checked_independent": nCopy})
+	}()
 	for it := 0; it < hvCount; it++ {
 		g := toposort.NewGraph()
 		fmt.Fprintln(wo, "new")
@@ -165,6 +167,44 @@ func main() {
 					}
 				}
 			}
+		}()
+		// Copy() gives an independent graph: edges added to (or removed from) a copy never show up in the original
+		func() {
+			defer func() {
+				if r := recover(); r != nil {
+					hv.Fail("copy-aliasing", caseJSON(), fmt.Sprint("panic while checking that a copy is independent: ", r))
+				}
+			}()
+			var before []string
+			okb, sortable := false, false
+			func() {
+				// a malformed build may make Toposort itself panic (the model agrees on those); nothing to compare then
+				defer func() { recover() }()
+				before, okb = g.Copy().Toposort()
+				sortable = true
+			}()
+			if !sortable {
+				return
+			}
+			c := g.Copy()
+			for t := 0; t < 4; t++ {
+				a, b := rng.Intn(n), rng.Intn(n)
+				if t%2 == 0 {
+					// prefer a node without children: the cheapest thing for a copy to share
+					for tries := 0; tries < n && len(g.FindChildren(name(a))) > 0; tries++ {
+						a = (a + 1) % n
+					}
+				}
+				c.AddEdge(name(a), name(b))
+				if t == 3 {
+					c.RemoveEdge(name(b), name(a))
+				}
+			}
+			after, oka := g.Copy().Toposort()
+			if okb != oka || fmt.Sprint(before) != fmt.Sprint(after) {
+				hv.Fail("copy-aliasing", caseJSON(), fmt.Sprintf("sorting the original gave %v %v before and %v %v after edges were added to a copy", okb, before, oka, after))
+			}
+			nCopy++
 		}()
 		if wellFormed && !dirty && !malformedOp {
 			// premises of the refinement theorems hold on every well-formed build
